@@ -41,6 +41,12 @@ def parseEv (w : String) : Option Ev :=
 def cmdMux (ws : List String) : String :=
   match ws with
   | kinds :: evs =>
+    -- `H<i>` / `K<i>`: a call enters send() while a teardown is in progress; the teardown is
+    -- one atomic step of the model, so these are `T r<i>` / `C T r<i>`
+    let evs := evs.flatMap (fun w =>
+      if w.startsWith "H" then ["T", "r" ++ (w.drop 1).toString]
+      else if w.startsWith "K" then ["C", "T", "r" ++ (w.drop 1).toString]
+      else [w])
     match evs.mapM parseEv with
     | none => "bad-event"
     | some evs =>
